@@ -9,6 +9,23 @@ mod timespec;
 
 use prelude::*;
 use timespec::{DayDefault, MinDefault};
+use winnow::combinator::peek;
+
+/// Succeeds, without consuming anything, at the end of a word: before a blank, at the end of the
+/// input or before a closing parenthesis.
+///
+/// Keywords and their arguments have to stop there, otherwise `-empty-true` would be read as
+/// `-empty -true` and `-uid 5-true` as `-uid 5 -true`.
+fn word_end(input: &mut &str) -> PResult<()> {
+    peek(alt((multispace1.void(), eof.void(), ")".void()))).parse_next(input)
+}
+
+/// Parse an operator without argument: the identifier, which has to be a whole word.
+macro_rules! nullary {
+    ($identifier:expr, $value:expr) => {
+        terminated($identifier, word_end).value($value)
+    };
+}
 
 /// Parse a unary operator with the provided methods
 ///
@@ -25,8 +42,8 @@ use timespec::{DayDefault, MinDefault};
 macro_rules! unary {
     ($identifier:expr, $transform:expr, $parser:expr) => {
         preceded(
-            $identifier,
-            cut_err(preceded(multispace1, cut_err($parser))),
+            terminated($identifier, word_end),
+            cut_err(preceded(multispace1, cut_err(terminated($parser, word_end)))),
         )
         .context(label($identifier))
         .map($transform)
@@ -36,11 +53,15 @@ macro_rules! unary {
 macro_rules! binary {
     ($identifier:expr, $transform:expr, $parser_lhs:expr, $parser_rhs:expr, $arguments:expr) => {
         preceded(
-            $identifier,
+            terminated($identifier, word_end),
             cut_err(
                 preceded(
                     multispace1,
-                    separated_pair($parser_lhs, multispace1, $parser_rhs),
+                    separated_pair(
+                        $parser_lhs,
+                        multispace1,
+                        terminated($parser_rhs, word_end),
+                    ),
                 )
                 .context(expected($arguments)),
             ),
@@ -75,7 +96,7 @@ where
 impl Parseable for GlobalOption {
     fn parse(input: &mut &'_ str) -> PResult<GlobalOption> {
         alt((
-            literal("-depth").value(GlobalOption::Depth),
+            nullary!("-depth", GlobalOption::Depth),
             unary!("-maxdepth", GlobalOption::MaxDepth, u32::parse),
             unary!("-mindepth", GlobalOption::MinDepth, u32::parse),
             unary!("-threads", GlobalOption::Threads, u32::parse),
@@ -109,17 +130,17 @@ impl Parseable for Action {
             ),
             unary!("-fprint0", Action::FilePrintNull, String::parse),
             unary!("-fprint", Action::FilePrint, String::parse),
-            terminated("-ls", multispace0).value(Action::List),
-            terminated("-print-file-fid", multispace0).value(Action::PrintFid),
+            nullary!("-ls", Action::List),
+            nullary!("-print-file-fid", Action::PrintFid),
             unary!(
                 "-printf",
                 Action::PrintFormatted,
                 quote_delimiter().and_then(Vec::<FormatElement>::parse)
             ),
-            terminated("-print0", multispace0).value(Action::PrintNull),
-            terminated("-print", multispace0).value(Action::Print),
-            terminated("-prune", multispace0).value(Action::Prune),
-            terminated("-quit", multispace0).value(Action::Quit),
+            nullary!("-print0", Action::PrintNull),
+            nullary!("-print", Action::Print),
+            nullary!("-prune", Action::Prune),
+            nullary!("-quit", Action::Quit),
         ))
         .context(label("action"))
         .parse_next(input)
@@ -152,9 +173,9 @@ impl Parseable for Test {
                     Test::ChangeTime,
                     parse_comp_format::<TimeSpec, DayDefault>
                 ),
-                literal("-empty").value(Test::Empty),
-                literal("-executable").value(Test::Executable),
-                literal("-false").value(Test::False),
+                nullary!("-empty", Test::Empty),
+                nullary!("-executable", Test::Executable),
+                nullary!("-false", Test::False),
                 unary!("-fstype", Test::FsType, String::parse),
                 unary!("-gid", Test::GroupId, Comparison::<u32>::parse),
                 unary!("-group", Test::Group, String::parse),
@@ -179,8 +200,8 @@ impl Parseable for Test {
                     parse_comp_format::<TimeSpec, DayDefault>
                 ),
                 unary!("-name", Test::Name, String::parse),
-                literal("-nouser").value(Test::NoUser),
-                literal("-nogroup").value(Test::NoGroup),
+                nullary!("-nouser", Test::NoUser),
+                nullary!("-nogroup", Test::NoGroup),
                 unary!("-path", Test::Path, String::parse),
                 unary!(
                     "-perm",
@@ -188,12 +209,12 @@ impl Parseable for Test {
                     quote_delimiter().and_then(terminated(PermCheck::parse, eof))
                 ),
                 unary!("-pool", Test::Pool, String::parse),
-                literal("-readable").value(Test::Readable),
+                nullary!("-readable", Test::Readable),
                 unary!("-regex", Test::Regex, String::parse),
                 unary!("-samefile", Test::Samefile, String::parse),
                 unary!("-size", Test::Size, Comparison::<Size>::parse),
                 unary!("-stripe-count", Test::StripeCount, Comparison::<u32>::parse),
-                literal("-true").value(Test::True),
+                nullary!("-true", Test::True),
                 unary!("-type", Test::Type, Vec::<FileType>::parse),
                 unary!("-uid", Test::UserId, Comparison::<u32>::parse),
                 unary!("-user", Test::User, String::parse),
@@ -205,7 +226,7 @@ impl Parseable for Test {
                     "attribute_and_value"
                 ),
                 unary!("-xattr", Test::Xattr, String::parse),
-                literal("-writable").value(Test::Writable),
+                nullary!("-writable", Test::Writable),
             )),
         ))
         .context(label("test"))
